@@ -3,11 +3,13 @@ import Proofs.Lemmas.Pattern
 import Proofs.Lemmas.Run
 import Proofs.Lemmas.SortTie
 import Proofs.Lemmas.Reduce
+import Proofs.Lemmas.Stack
 import Proofs.C20Sites
 import Generated.C20MapRanges
 import Generated.C20PkgState
 import Generated.C20Resets
 import Generated.C20Sorts
+import Generated.C20Stacks
 /-!
 # C20 — sequential programs are deterministic and leave nothing behind for the next VM
 
@@ -27,6 +29,7 @@ interpreter independently of all of this.
 -/
 namespace C20
 open Model.OMap Proofs.OMap Proofs.Pattern Model.Run Proofs.Run Model.Sites Model.SortKeys Proofs.SortTie Model.Reduce Proofs.Reduce
+open Model.Stack Proofs.Lemmas.Stack
 
 /-! ## (i) the ordered property store -/
 
@@ -548,5 +551,112 @@ example : maxOf [("a", PVal.int 1), ("b", .float 3), ("c", .numstr 2)] = some (.
 /-- … and those of `Pattern_first_of_ties_depends`: `3` and `3.0` both on top -/
 example : maxOf [("a", PVal.int 3), ("b", .float 3), ("c", .int 1)] = some (.int 3) ∧
     maxOf [("b", PVal.float 3), ("a", .int 3), ("c", .int 1)] = some (.float 3) := by decide
+
+/-! ## (vii) process-wide stacks with a sentinel (round 7)
+
+`core.obStack` keeps a sentinel at index 0; every function that reads it assumes `len ≥ 1`, and the
+end-of-run repair (`FlushAllBuffers`) is itself guarded by `len <= 1`. A built-in that pops under a
+weaker guard takes the process-wide stack below its floor for good. `Model/Stack.lean`: the length of
+such a container under guarded effects, exactly the facts `extract/c20/stacks.go` regenerates. -/
+
+/-- **Floor, positive (unbounded).** When every op is safe for floor `F` (a pop of `s` is not executed at
+the lengths `F … F+s-1`, a reset stores at least `F` elements), every sequence of calls, started at any
+length at or above the floor, stays at or above it. -/
+theorem Stack_floor_kept {F : Nat} (ops : List Op) (h : ∀ o ∈ ops, o.safe F = true) {n : Nat} (hn : F ≤ n) :
+    F ≤ run ops n :=
+  run_preserves ops h hn
+
+/-- **Floor, negative.** A pop that is not safe for a floor `F ≥ 1` has a length at or above the floor at
+which one call takes the container below it. -/
+theorem Stack_unsafe_pop_goes_below {F s : Nat} (hF : 0 < F) {o : Op} (he : o.eff = .pop s)
+    (hu : o.safe F = false) : ∃ n, F ≤ n ∧ o.step n < F :=
+  unsafe_pop_breaks hF he hu
+
+/-- **Floor, characterisation.** For an alphabet of pushes, pops and readers that contains the unguarded
+push (`ob_start`) and a floor `F ≥ 1`: every sequence of calls started at the floor keeps `len ≥ F`
+**iff** every popping op is guarded so that it is not executed at the lengths from which it would go
+below `F` — for `obStack`: iff every pop is guarded by `len > 1`. -/
+theorem Stack_floor_kept_iff (F : Nat) (hF : 0 < F) (A : List Op) (hplain : ∀ o ∈ A, Op.plain o)
+    (hpush : push1 ∈ A) :
+    (∀ seq : List Op, (∀ o ∈ seq, o ∈ A) → F ≤ run seq F) ↔ (∀ o ∈ A, o.safe F = true) :=
+  floor_iff F hF A hplain hpush
+
+/-- **Obligation (regenerated every run): no process-wide slice is taken below its floor.** For every
+slice that is process-wide state (field of a struct type with a package-level variable, or a package-level
+slice variable) and every effect some function has on its length, with the length guards in force where
+the effect stands: a pop is guarded against the lengths from which it would go below the number of
+elements the initialiser stores, a reset stores at least as many, an assignment the translator cannot
+read is admitted only for floor 0. A new popping function with a weaker guard than its siblings
+(`len == 0` where they test `len <= 1`) makes this fail; `echo bad | vm_c20` names it. -/
+theorem C20_process_wide_stacks_keep_their_floor :
+    unsafeEffects Generated.C20Stacks.containers = [] ∧ Generated.C20Stacks.shape = [] := by
+  decide
+
+/-- … and what it means, unbounded: for every regenerated container, every sequence of its regenerated
+effects, from any length at or above its floor, ends at or above its floor — in particular the guard of
+the end-of-run repair (`len <= floor ⇒ nothing to do`) is right to assume the sentinel is there. -/
+theorem C20_regenerated_stacks_floor_invariant :
+    ∀ c ∈ Generated.C20Stacks.containers, ∀ seq : List Op, (∀ o ∈ seq, o ∈ c.ops) →
+      ∀ n, c.floor ≤ n → c.floor ≤ run seq n := by
+  intro c hc seq hseq n hn
+  exact run_preserves seq
+    (fun o ho => safe_of_unsafeEffects_nil C20_process_wide_stacks_keep_their_floor.1 hc (hseq o ho)) hn
+
+/-- the output-buffer stack as coded at the pinned tree: `push` (ob_start), `pop` (ob_get_clean,
+ob_end_clean), `FlushAllBuffers` (end of every run) -/
+def obPush : Op := ⟨[], .push 1⟩
+def obPop : Op := ⟨[⟨.le, 1, true⟩], .pop 1⟩
+def obFlushAll : Op := ⟨[⟨.le, 1, true⟩], .reset 1⟩
+def obOps : List Op := [obPush, obPop, obFlushAll]
+
+/-- the regenerated effects on `outputBufferStack.buffers` -/
+def obRegenerated : List Op :=
+  (Generated.C20Stacks.containers.filter (fun c => c.ty == "outputBufferStack" && c.field == "buffers")).flatMap (·.ops)
+
+/-- **Obligation (regenerated every run): the output-buffer stack is the modelled one** — floor 1, and
+every effect on its length is one of `obOps` (or a reader). -/
+theorem C20_ob_stack_as_modelled :
+    obRegenerated ≠ [] ∧ obRegenerated.all (fun o => o.eff == .none || obOps.contains o) = true ∧
+    (Generated.C20Stacks.containers.filter (fun c => c.ty == "outputBufferStack" && c.field == "buffers")).all
+      (fun c => c.floor == 1) = true := by
+  decide
+
+/-- **The output-buffer stack keeps its sentinel (unbounded):** after any sequence of ob_start /
+ob_get_clean / ob_end_clean / end-of-run flushes — any history of programs in one process — the stack holds
+its sentinel, `ob_get_level()` is not negative, and the next `ob_start()` does buffer. -/
+theorem C20_ob_stack_sentinel_kept (seq : List Op) (h : ∀ o ∈ seq, o ∈ obOps) :
+    1 ≤ run seq 1 ∧ 0 ≤ level (run seq 1) ∧ buffering (run (seq ++ [obPush]) 1) = true := by
+  have h1 : 1 ≤ run seq 1 := by
+    apply run_preserves seq _ (Nat.le_refl 1)
+    intro o ho
+    have := h o ho
+    simp only [obOps, List.mem_cons, List.not_mem_nil, or_false] at this
+    rcases this with rfl | rfl | rfl <;> decide
+  refine ⟨h1, ?_, ?_⟩
+  · simp only [level]; omega
+  · rw [run_append]
+    have : run [obPush] (run seq 1) = run seq 1 + 1 := by
+      simp [Model.Stack.run, obPush, Op.step, Op.runs, Effect.apply]
+    rw [this]
+    simp only [buffering, decide_eq_true_eq]
+    omega
+
+/-- **Negation witness (replayed on the real interpreter by the unbalanced stream on a tree that has it):**
+an `ob_end_flush` whose pop is guarded by `len == 0` instead of `len <= 1`. One unmatched call removes the
+sentinel (`ob_get_level()` = -1), the end-of-run repair skips it (`len <= 1`), and the next program's
+`ob_start()` only re-creates the sentinel: it buffers nothing, where a fresh process buffers. -/
+def seededFlush : Op := ⟨[⟨.eq, 0, true⟩], .pop 1⟩
+
+theorem C20_ob_end_flush_sentinel_counterexample :
+    seededFlush.safe 1 = false ∧
+    run [seededFlush] 1 = 0 ∧ level (run [seededFlush] 1) = -1 ∧
+    run [seededFlush, obFlushAll] 1 = 0 ∧
+    buffering (run [seededFlush, obFlushAll, obPush] 1) = false ∧ buffering (run [obPush] 1) = true ∧
+    ¬ (∀ seq : List Op, (∀ o ∈ seq, o ∈ seededFlush :: obOps) → 1 ≤ run seq 1) := by
+  refine ⟨by decide, by decide, by decide, by decide, by decide, by decide, ?_⟩
+  intro hall
+  have := hall [seededFlush] (by intro o ho; simp only [List.mem_singleton] at ho; rw [ho]; exact List.mem_cons_self)
+  revert this
+  decide
 
 end C20
